@@ -159,7 +159,10 @@ Print Assumptions C10_inactive_unchanged_solve.
    penalty) and may differ only at index j of last_res_values /
    last_targets_within_tol / the logged target columns.  If target j is disabled
    while the operation runs ([quiet]) and in every logged row ([rows_off]), the
-   two runs stay related: same outcome, same steps. *)
+   two runs stay related: same outcome, same steps.  The model includes
+   Target(optimize_log=True): an ACTIVE optimize_log target enters the penalty as
+   log10(res) - log10(value) (numpy.log10 is an oracle), a disabled one is zeroed
+   like any other disabled target - also in the assertion "res > 0". *)
 Theorem C10_disabled_target_noninterference :
   forall (E : env) (cf : cfg (eF E)) (f1 f2 : list (eF E) -> option (list (eF E))) (j : nat),
   (forall k, match f1 k, f2 k with
